@@ -56,7 +56,7 @@ func init() {
 		Run: runSetStorage,
 	})
 	register(&Rule{
-		ID: "C20.no-alias-out", Prop: "C20", Also: []string{"C07", "C02", "C19"}, Floor: 20, Controls: 1,
+		ID: "C20.no-alias-out", Prop: "C20", Also: []string{"C07", "C02", "C19", "C15", "C16"}, Floor: 20, Controls: 1,
 		Doc: "an exported function whose result is a Go reference (pointer, slice, map) does not hand out payload memory of a value or type without a copy; the documented read-only accessors are tabled by symbol",
 		Run: runNoAliasOut,
 	})
@@ -622,7 +622,8 @@ func runNoAliasOut(rr *RuleRun) {
 		if fn.Pkg != nil {
 			pk = shortPkg(fn.Pkg.Pkg)
 		}
-		if pk != "cty" && pk != "cty/set" {
+		// the codecs hand out encoded bytes: they too must be the caller's own (pooled buffers are the risk there)
+		if pk != "cty" && pk != "cty/set" && pk != "cty/json" && pk != "cty/msgpack" {
 			continue
 		}
 		for i := 0; i < fn.Signature.Results().Len(); i++ {
